@@ -75,6 +75,9 @@ def runLines (c : Component) (lines : List String) : List String := Id.run do
     | "case" :: _ =>
       st := c.init
       out := out.push l.trimAscii.toString
+    | "amb" :: _ => pure ()   -- the surroundings of the interceptor under test (transparent neighbours, attribute
+                              -- reuse, chain wrapping): no model depends on them — that is what C01 states
+
     | _ =>
       if l.startsWith "#" then pure () else
       let (st', o) := c.step st ts
